@@ -47,7 +47,7 @@ func (r *raceState) report(fr *frame, kind string, prev accessRec, write bool) {
 
 func (r *raceState) access(fr *frame, key any, write bool) {
 	s := r.i.sched
-	if len(s.tasks) < 2 {
+	if len(s.tasks) < 2 || r.i.raceOff > 0 {
 		return
 	}
 	cur := s.cur
